@@ -211,20 +211,26 @@ func (s *Store) Delete(ctx context.Context, target ocispec.Descriptor) error {
 // delete deletes one node and returns the dangling nodes caused by the delete.
 func (s *Store) delete(ctx context.Context, target ocispec.Descriptor) ([]ocispec.Descriptor, error) {
 	resolvers := s.tagResolver.Map()
-	untagged := false
+	untagged := make(map[string]ocispec.Descriptor)
 	for reference, desc := range resolvers {
 		if content.Equal(desc, target) {
 			s.tagResolver.Untag(reference)
-			untagged = true
+			untagged[reference] = desc
 		}
 	}
-	danglings := s.graph.Remove(target)
-	if untagged && s.AutoSaveIndex {
-		err := s.saveIndex()
-		if err != nil {
+	if len(untagged) > 0 && s.AutoSaveIndex {
+		if err := s.saveIndex(); err != nil {
+			// index.json still names the target: keep the references, so that
+			// a repeated Delete saves the index again before removing the blob
+			for reference, desc := range untagged {
+				if tagErr := s.tagResolver.Tag(ctx, desc, reference); tagErr != nil {
+					return nil, errors.Join(err, tagErr)
+				}
+			}
 			return nil, err
 		}
 	}
+	danglings := s.graph.Remove(target)
 	if err := s.storage.Delete(ctx, target); err != nil {
 		return nil, err
 	}
